@@ -87,6 +87,7 @@ type modTarget struct {
 	ref       Term
 	idx       *Term // nil: whole row (or range when lo/hi are set)
 	lo, hi    *Term // absolute index range [lo,hi) inside the row
+	ghost     *GhostField // file-level ghost variable
 }
 
 // modTargets evaluates a modifies clause expression to heap targets.
@@ -104,6 +105,14 @@ func (c *Ctx) modTargets(env *SpecEnv, cl *Clause) []modTarget {
 		// a, b, c lists are written as separate clauses; support "x.f" / "x" / "*x" / "x[lo:hi]"
 		if u, ok := x.(*SUn); ok && u.Op == "*" {
 			x = u.X
+		}
+		if id, ok := x.(*SIdent); ok {
+			if _, bound := env.vars[id.Name]; !bound {
+				if g := c.ghostVarDecl(id.Name); g != nil {
+					out = append(out, modTarget{ghost: g})
+					return
+				}
+			}
 		}
 		if sl, ok := x.(*SSlice); ok {
 			base, isSl := env.eval(sl.X).(Slice)
@@ -229,6 +238,12 @@ func (c *Ctx) applyContractSig(st *State, x *ast.CallExpr, pk *Pkg, sig *types.S
 	for _, cl := range fc.Modifies {
 		for _, t := range c.modTargets(env, cl) {
 			c.checkCalleeTarget(st, t, x.Pos(), short)
+			if t.ghost != nil {
+				var gf []Term
+				st.ghosts["gv:"+t.ghost.Name] = c.fresh(c.resolveTypeText(t.ghost.Type), "ghost_"+t.ghost.Name, &gf)
+				st.assume(c, And(gf...))
+				continue
+			}
 			h := c.heapGet(st, t.fam, t.leaf)
 			if t.lo != nil {
 				old := c.name(Select(h, t.ref), "orow")
@@ -275,6 +290,7 @@ func (c *Ctx) applyContractSig(st *State, x *ast.CallExpr, pk *Pkg, sig *types.S
 	c.bindCallEnv(post, sig, fd, recv, args)
 	for i, nm := range rn {
 		post.vars[nm] = rvals[i]
+		post.vars[fmt.Sprintf("result%d", i)] = rvals[i]
 	}
 	if len(rvals) == 1 {
 		post.vars["result"] = rvals[0]
